@@ -1577,6 +1577,73 @@ fn materialize(c: &Corpus, body: &Json, idx: u64) -> (Vec<u8>, String) {
 // 4. Executing one case (child processes, --stage san and --replay share this code)
 // =============================================================================================
 
+
+// ---- independent curve-membership oracle for raw (uncompressed) BLS12-381 encodings ------------
+// blst serialisation: big-endian coordinates; G1 = x || y (48 bytes each); G2 = x.c1 || x.c0 ||
+// y.c1 || y.c0; the three top bits of the first byte are flags (0x80 compressed, 0x40 infinity).
+
+fn bls_p() -> num_bigint::BigUint {
+    num_bigint::BigUint::parse_bytes(
+        b"1a0111ea397fe69a4b1ba7b6434bacd764774b84f38512bf6730d2a0f6b0f6241eabfffeb153ffffb9feffffffffaaab",
+        16,
+    )
+    .unwrap()
+}
+
+/// `None`: not a plain uncompressed encoding (compressed flag set — handled by the re-encoding
+/// oracle); `Some(b)`: b = "canonical coordinates of a point on E(Fp): y^2 = x^3 + 4, or infinity"
+fn g1_raw_on_curve(slot: &[u8]) -> Option<bool> {
+    use num_bigint::BigUint;
+    if slot.len() != 96 || slot[0] & 0x80 != 0 {
+        return None;
+    }
+    if slot[0] & 0x40 != 0 {
+        return Some(slot[0] == 0x40 && slot[1..].iter().all(|b| *b == 0));
+    }
+    if slot[0] & 0x20 != 0 {
+        return Some(false);
+    }
+    let p = bls_p();
+    let x = BigUint::from_bytes_be(&slot[..48]);
+    let y = BigUint::from_bytes_be(&slot[48..]);
+    if x >= p || y >= p {
+        return Some(false);
+    }
+    Some((&y * &y) % &p == (&x * &x * &x + 4u32) % &p)
+}
+
+/// same for E'(Fp2): y^2 = x^3 + 4(1+u), Fp2 = Fp[u]/(u^2+1)
+fn g2_raw_on_curve(slot: &[u8]) -> Option<bool> {
+    use num_bigint::BigUint;
+    if slot.len() != 192 || slot[0] & 0x80 != 0 {
+        return None;
+    }
+    if slot[0] & 0x40 != 0 {
+        return Some(slot[0] == 0x40 && slot[1..].iter().all(|b| *b == 0));
+    }
+    if slot[0] & 0x20 != 0 {
+        return Some(false);
+    }
+    let p = bls_p();
+    let c = |i: usize| BigUint::from_bytes_be(&slot[48 * i..48 * (i + 1)]);
+    let (x1, x0, y1, y0) = (c(0), c(1), c(2), c(3));
+    if x0 >= p || x1 >= p || y0 >= p || y1 >= p {
+        return Some(false);
+    }
+    // (a0 + a1 u)(b0 + b1 u) = (a0 b0 - a1 b1) + (a0 b1 + a1 b0) u
+    let mul = |a: &(BigUint, BigUint), b: &(BigUint, BigUint)| -> (BigUint, BigUint) {
+        let r0 = (&a.0 * &b.0 + &p * &p - &a.1 * &b.1) % &p;
+        let r1 = (&a.0 * &b.1 + &a.1 * &b.0) % &p;
+        (r0, r1)
+    };
+    let x = (x0, x1);
+    let y = (y0, y1);
+    let y2 = mul(&y, &y);
+    let x3 = mul(&mul(&x, &x), &x);
+    let rhs = ((x3.0 + 4u32) % &p, (x3.1 + 4u32) % &p);
+    Some(y2 == rhs)
+}
+
 type Agg = midnight_aggregator::light_aggregator::LightAggregator<AGG_N>;
 
 /// largest circuit size for which a loaded ZKIR program is also taken through key generation
@@ -1801,6 +1868,41 @@ impl Exec {
                                 }
                             }
                         }
+                        // curve membership of every decoded commitment: the repository's own
+                        // predicates (C11 checks them) on the decoded points, and an independent
+                        // big-integer check of the raw coordinates
+                        if f != "U" {
+                            use midnight_curves::{CurveAffine, G1Affine};
+                            let pts: Vec<G1Projective> = vk
+                                .vk()
+                                .fixed_commitments()
+                                .iter()
+                                .chain(vk.vk().permutation().commitments().iter())
+                                .copied()
+                                .collect();
+                            for (i, pt) in pts.iter().enumerate() {
+                                let a = G1Affine::from(*pt);
+                                let on: bool = a.is_on_curve().into();
+                                let tf: bool = a.is_torsion_free().into();
+                                // [r-1]P = -P  <=>  [r]P = O   (scalar arithmetic is mod r)
+                                let tf2 = *pt * (-F::ONE) == -*pt;
+                                if !on {
+                                    ev.push(json!({"k": "membership", "what": "off-curve", "point_index": i}));
+                                } else if f == "P" && (!tf || !tf2) {
+                                    ev.push(json!({"k": "membership", "what": "outside-subgroup", "point_index": i}));
+                                }
+                            }
+                        }
+                        if f == "R" {
+                            let h = header_len(&self.c, "vk", "R", s);
+                            let mut off = h;
+                            while off + 96 <= consumed.min(input.len()) {
+                                if g1_raw_on_curve(&input[off..off + 96]) == Some(false) {
+                                    ev.push(json!({"k": "membership", "what": "off-curve-or-noncanonical-coordinates", "offset": off}));
+                                }
+                                off += 96;
+                            }
+                        }
                         if s < self.vks.len() {
                             let full = self.sampled(input, 4);
                             self.verify_with_vk(s, &vk, changed, full, &mut ev, stage);
@@ -1840,6 +1942,9 @@ impl Exec {
                                         "input_byte": input.get(d), "reencoded_byte": b.get(d)}));
                                 }
                             }
+                        }
+                        if f == "R" && consumed >= 192 && g2_raw_on_curve(&input[..192]) == Some(false) {
+                            ev.push(json!({"k": "membership", "what": "off-curve-or-noncanonical-coordinates", "offset": 0}));
                         }
                         stage("verify");
                         let proof = self.proof_of(0, HashKind::Blake);
@@ -2075,6 +2180,7 @@ fn shape_of(file: &str, msg: &str) -> String {
         ("circuits/src/biguint/biguint_gadget.rs", "normalize: overflow", "normalize payload_bound>=NUM_BITS"),
         ("circuits/src/field/native/native_gadget.rs", "assigned_to_le_bytes", "IntoBytes(n>32) on Native"),
         ("circuits/src/ecc/curves.rs", "part of the subgroup", "into_subgroup on non-subgroup Jubjub constant"),
+        ("circuits/src/field/decomposition/cpu_utils.rs", "cannot be represented with the given limb_sizes", "decompose constant wider than limb_sizes"),
     ];
     for (f, frag, shape) in known {
         if file.ends_with(f) && m.contains(frag) {
@@ -2340,6 +2446,13 @@ impl<'a> Aggr<'a> {
                         api_of(&t, "decode"),
                         e["first_diff"]
                     );
+                    self.candidate(sig, what, &body, r.idx, e.clone(), ro);
+                }
+                "membership" => {
+                    let whatk = e["what"].as_str().unwrap_or("off-curve");
+                    let site = if t == "pv" { "curves/src/bls12_381/g2.rs" } else { "curves/src/bls12_381/g1.rs" };
+                    let sig = format!("C16/{}/{}/invalid-point-accepted@{site} {whatk}", target_object(&t), fmt_name(&t, &f));
+                    let what = format!("{} returned an object containing a point that is {whatk}", api_of(&t, "decode"));
                     self.candidate(sig, what, &body, r.idx, e.clone(), ro);
                 }
                 "accepted" => {
